@@ -319,7 +319,17 @@ def run_c16(ctx):
             raise Violation("script-not-valid-shell", "bash -n: {}".format(cp.stderr[-300:]))
         targeted = list(explicit) if explicit is not None else list(missing)
         if mode == "array":
-            mr = RANGE_RX[scheduler].search(script)
+            # what the scheduler reads: qsub (PBS) and sbatch stop looking for directives at
+            # the first executable line; SGE's qsub scans the whole script for '#$' lines
+            visible = script
+            if scheduler in ("pbs", "slurm"):
+                head = []
+                for ln in script.split("\n"):
+                    if ln.strip() and not ln.lstrip().startswith("#"):
+                        break
+                    head.append(ln)
+                visible = "\n".join(head) + "\n"
+            mr = RANGE_RX[scheduler].search(visible)
             if mr is None:
                 if scheduler == "pbs" and len(targeted) == 1:
                     lo, hi = 1, 1  # PBS cannot run arrays of one: plain job, index fixed to 1
